@@ -152,10 +152,11 @@ def run(chk):
                     want = "PhQ::Internal::Conversions<%s, %s::%s>::%s<%s>" % (ut, ut, k[2], direction, T)
                     got = v[1]["name"]
                     i2 = "%s[%s]" % (inst, k[2])
-                    if got != want:
-                        chk.violated("R3", i2, "entry for %s dispatches to %s (expected %s)" % (k[2], got, want), vloc)
-                        continue
+                    # whichever function the entry names (the loop may live in a helper or a base class): what it must
+                    # *do* is apply Conversion<U, X>::direction once to each of `size` elements and to nothing else
                     okloop, why = conversions_loop_ok(F, v[1], ut, k[2], direction, T)
+                    if okloop is False and got != want:
+                        why = "entry for %s dispatches to %s: %s" % (k[2], got, why)
                     if okloop is True:
                         chk.holds("R3", i2, why, vloc)
                     elif okloop is False:
